@@ -1,0 +1,25 @@
+//go:build verif
+
+package hmac
+
+// Verification hooks (build tag `verif` only): read and set the per-column state of Processor so
+// that a single OnColumn call can be compared with its formal model.
+
+// VerifState returns the processor's internal state: hashData, the marshalled matchedHash
+// (nil when the interface is nil) and rawData.
+func (p *Processor) VerifState() (hashData []byte, matchedHash []byte, rawData []byte) {
+	if p.matchedHash != nil {
+		matchedHash = p.matchedHash.Marshal()
+	}
+	return p.hashData, matchedHash, p.rawData
+}
+
+// VerifSetState puts the processor into the given state (matchedHash nil = nil interface).
+func (p *Processor) VerifSetState(hashData []byte, matchedHash []byte, rawData []byte) {
+	p.hashData = hashData
+	p.rawData = rawData
+	p.matchedHash = nil
+	if matchedHash != nil {
+		p.matchedHash = &HashData{info: hashFuncMap[defaultFuncNumber], data: matchedHash}
+	}
+}
